@@ -33,6 +33,7 @@ def check(ctx):
     merge_and_split(ctx, repo)
     warn(ctx, repo)
     no_direct_node_calls(ctx, s)
+    aggregates_built_for_supplied_names(ctx, repo)
     from .c11 import return_annotation_sites
 
     ctx.rule("A3", "the declared type of a group / pointer aggregate - the type a supplied column of that name is converted to - comes from the result-type rule in every branch of _annotations_for_aggregation")
@@ -359,3 +360,39 @@ def no_direct_node_calls(ctx, s):
                     ctx.violation("A2", f"{r.qual}|calls {callee.dag_name}", f"src/_gettsim/{r.mod.rel}:{c.lineno} {r.name}", f"at {d} {r.name} calls {callee.name}(...) directly although `{callee.dag_name}` is a node of the graph at that date: a column supplied as `{callee.dag_name}` is reported as overriding the function and then ignored here (the value is recomputed)")
     ctx.ob("A2", ok=True, distinct="calls examined", n=max(ncalls, 1))
     ctx.floor("A2", 20)
+
+
+def aggregates_built_for_supplied_names(ctx, repo):
+    """M-agg: the aggregate factories build a function for every spec, also when a column of that name is
+    supplied - only then the overlap is announced and the aggregate's declared type drives the conversion of
+    the supplied column.  (Time conversions are different: they are *derived* names and must not be built.)"""
+    ctx.rule("M-agg", "the group / pointer aggregate factories do not skip a spec because its name is among the data columns")
+    fl = repo.module("functions_loader.py")
+    n = 0
+    for facname, one in (("_create_aggregate_by_group_functions", "_create_one_aggregate_by_group_func"), ("_create_aggregate_by_p_id_functions", "_create_one_aggregate_by_p_id_func")):
+        fd = find_function(fl, facname, "primary anchor")
+        params = [a.arg for a in fd.args.args]
+        dnames = {p for p in params if "data" in p}
+        builders = []
+        for c in ast.walk(fd):
+            if isinstance(c, ast.DictComp) and any(isinstance(x, ast.Call) and isinstance(x.func, ast.Name) and x.func.id == one for x in ast.walk(c.value)):
+                gen = c.generators[0]
+                keyvars = {x.id for x in ast.walk(c.key) if isinstance(x, ast.Name)}
+                builders.append((c, keyvars, [i for g in c.generators for i in g.ifs]))
+            if isinstance(c, ast.For) and any(isinstance(x, ast.Call) and isinstance(x.func, ast.Name) and x.func.id == one for b in c.body for x in ast.walk(b)):
+                from staticlib.guards import Dominance
+
+                dom = Dominance(fd)
+                call = next(x for b in c.body for x in ast.walk(b) if isinstance(x, ast.Call) and isinstance(x.func, ast.Name) and x.func.id == one)
+                keyvars = {x.id for x in ast.walk(c.target) if isinstance(x, ast.Name)}
+                builders.append((c, keyvars, [t for t, _ in dom.of(call)]))
+        if not builders:
+            raise AnalysisError(f"{facname}: the place where {one} is applied to every spec was not found; M-agg needs a re-read")
+        for c, keyvars, conds in builders:
+            n += 1
+            bad = [t for t in conds for cmp_ in ast.walk(t) if isinstance(cmp_, ast.Compare) and isinstance(cmp_.left, ast.Name) and cmp_.left.id in keyvars
+                   and any(isinstance(o, (ast.In, ast.NotIn)) for o in cmp_.ops) and any(isinstance(x, ast.Name) and x.id in dnames for x in ast.walk(cmp_.comparators[0]))]
+            ctx.ob("M-agg", ok=not bad, distinct=facname)
+            for t in bad:
+                ctx.violation("M-agg", f"{facname}|{ast.unparse(t)[:60]}", fl.loc(t) + f" {facname}", f"`{ast.unparse(t)[:80]}` skips the aggregate when a column of its name is supplied: the column is used without the overlap warning and without conversion to the aggregate's type")
+    ctx.floor("M-agg", 2)
